@@ -136,7 +136,8 @@ def judge(scen):
             f"(reference: {'unresolved cycle ' + str(cyc) if cyc else 'accepted'}): {_fmt(scen)}",
             "incomparable-in-closure")
         return out, cyc is not None
-    is_cycle_err = res[0] == "exc" and res[1] == "ScenarioError" and "cycle" in res[2]
+    # a ScenarioError out of run() before any step is the rejection (whatever its wording)
+    is_cycle_err = res[0] == "exc" and res[1] == "ScenarioError"
     if cyc is not None:
         if not is_cycle_err:
             add("unresolved-cycle-accepted",
@@ -145,7 +146,10 @@ def judge(scen):
             if stepped:
                 add("stepped-before-rejection", f"{stepped[:2]} before the ScenarioError: {_fmt(scen)}")
             walk = re.findall(r"sid='([^']+)'", res[2])
-            prob = _walk_problem(topo, walk)
+            if len(walk) < 2:      # another rendering of the path: take the known ids in order
+                walk = re.findall(r"(?<![A-Za-z0-9_])(" + "|".join(map(re.escape, topo.sims)) +
+                                  r")(?![A-Za-z0-9_])", res[2])
+            prob = _walk_problem(topo, walk) if len(walk) >= 2 else None
             if prob:
                 add("reported-cycle-not-real", f"message names {walk}: {prob}: {_fmt(scen)}")
     else:
